@@ -356,6 +356,50 @@ def generic_schedules(ctx, rng, stage, tag, make_fn, digest, limit, inj=None, wh
     return dig0
 
 
+# ------------------------------------------------------------------ S: key order of the query-marker lookup
+KEY_ORDER_CLASS = 'c04-lookup-key-order-follows-completion-order'
+
+
+def selection_key_order(ctx, rng, tag, make_fn, what):
+    """The lookup returned by the selection stage is a dict filled by the workers when they are done
+    (select_all_markers: output_dict[parent] = genes; dict(output_dict)): as a MAPPING it is the same
+    under every completion order (generic_schedules, c04_selection_keyed_by_parent); here the ORDER of its
+    keys - which is the order of the entries of the JSON file the query_markers CLI writes - is compared
+    between two runs whose workers are forced to finish their work in opposite orders."""
+    base = ctx.scratch / f'ko_{tag}'
+    base.mkdir()
+    res0, tr0 = run_scheduled(ctx, 'selection', make_fn, base / 'b', None)
+    k = len(res0['exit_codes']['selection']) if res0['ok'] else 0
+    if k < 2:
+        ctx.dist('schedule', f'selection key order skipped (k={k})')
+        shutil.rmtree(base, ignore_errors=True)
+        return
+    seen = []
+    for name, sigma in (('f', list(range(k))), ('r', list(range(k - 1, -1, -1)))):
+        res, tr = run_scheduled(ctx, 'selection', make_fn, base / name, sigma, before=True)
+        worked = completion_order(tr, 'selection', ev='worked')
+        ctx.count(('S', 'selection-key-order', tag, tuple(worked)), nontrivial=worked != sorted(worked))
+        if not res['ok']:
+            ctx.violation(f'selection under schedule {sigma} failed: {res["error"]}',
+                          {'class': 'c04-run-failed', 'stage': 'selection', 'intended': sigma, 'input': what})
+            continue
+        seen.append((sigma, worked, [kk for kk in res['value'] if kk not in ('log', 'metadata')],
+                     {kk: vv for kk, vv in res['value'].items() if kk not in ('log', 'metadata')}))
+    if len(seen) == 2:
+        (s1, w1, k1, v1), (s2, w2, k2, v2) = seen
+        if v1 != v2:
+            ctx.violation(f'selection: the lookup differs as a mapping between the completion orders {w1} and {w2}',
+                          {'class': 'c04-selection-schedule-dependent', 'stage': 'selection', 'observed_orders': [w1, w2], 'input': what})
+        elif k1 != k2:
+            ctx.violation(f'selection: the keys of the returned lookup come in the order {k1} when the workers finish in the order '
+                          f'{w1} and in the order {k2} when they finish in the order {w2}',
+                          {'class': KEY_ORDER_CLASS, 'stage': 'selection', 'observed_orders': [w1, w2], 'key_orders': [k1, k2],
+                           'lookup': v1, 'input': what})
+        else:
+            ctx.traces_validated += 1
+    shutil.rmtree(base, ignore_errors=True)
+
+
 # ------------------------------------------------------------------ designed inputs (B, H)
 def labels_of(gt, lf):
     """Names of the ancestors of leaf lf, top level first, the leaf itself last."""
@@ -559,7 +603,12 @@ def stats_bitwise(ctx, rng, tag, p, normalization, reps, limit):
             res, tr = run_scheduled(ctx, 'stats', mk, d, sigma)
         order = completion_order(tr, 'stats')
         k_of = {r['info'].get('buffer_path'): r['k'] for r in tr if r['ev'] == 'begin' and r['stage'] == 'stats'}
-        merge = [k_of.get(pth, -1) for pth, _ in log]
+        if len(k_of) != len(res['exit_codes']['stats']) or not all(isinstance(x, str) for x in k_of):
+            # the workers' buffer paths were not recorded (path too long for the trace): merge order unobserved
+            ctx.extra['merge_order_unobserved'] = ctx.extra.get('merge_order_unobserved', 0) + 1
+            merge = None
+        else:
+            merge = [k_of.get(pth, -1) for pth, _ in log]
         holds = [nc for _, nc in log]
         runs.append((name, sigma, res, order, merge, holds))
         return d, res, order, merge, holds
@@ -617,7 +666,7 @@ def stats_bitwise(ctx, rng, tag, p, normalization, reps, limit):
                 durs[w] = j
         cases.append((405, [p, k, [0] * k, durs]))
     for (name, sigma, res, order, merge, holds), out in zip(runs, ctx.model(cases)):
-        if not res['ok']:
+        if not res['ok'] or merge is None:
             continue
         if out[0] != 0 or out[1] != [merge]:
             ctx.violation(f'stats run {name}: the parent merged the worker buffers in the order {merge} (dispatch numbers; '
@@ -706,8 +755,10 @@ def hash_seed_chain(ctx, base, tag, gt, spec, seeds, inp, designed):
                           dict(inp, hash_seed=hs, stderr=se[-3000:], **{'class': 'c04-run-failed'}))
             continue
         d = base / name
+        lk = json.load(open(d / 'markers.json'))
+        # the lookup as a mapping parent -> ordered gene list, and (separately) the order of its keys
         dg = {'stats': h5_digest(d / 'stats.h5'), 'markers': h5_digest(d / 'refm.h5'),
-              'mask': h5_digest(d / 'mask.h5'), 'lookup': open(d / 'markers.json').read()}
+              'mask': h5_digest(d / 'mask.h5'), 'lookup': lk, 'lookup_key_order': list(lk.keys())}
         for i in range(len(spec['mappings'])):
             dg[f'mapping{i}'] = mapping_digest(d / f'm{i}')
         digs[name] = dg
@@ -729,6 +780,12 @@ def hash_seed_chain(ctx, base, tag, gt, spec, seeds, inp, designed):
         if first not in digs or name not in digs:
             continue
         bad = diff_keys(digs[first], digs[name])
+        if 'lookup_key_order' in bad:
+            bad.remove('lookup_key_order')
+            ctx.violation(f'the keys of the query-marker lookup come in a different order in two runs on the same input '
+                          f'(PYTHONHASHSEED={seeds[0]} and {hs}): {digs[first]["lookup_key_order"]} vs {digs[name]["lookup_key_order"]}',
+                          dict(inp, hash_seeds=[seeds[0], hs], key_orders=[digs[first]['lookup_key_order'], digs[name]['lookup_key_order']],
+                               **{'class': KEY_ORDER_CLASS}))
         if not bad:
             ctx.traces_validated += 1
             continue
@@ -826,6 +883,8 @@ def run(ctx):
         '(JSON keys config/log/metadata, HDF5 dataset metadata, the metadata entry (timestamp) of a serialized taxonomy '
         'tree, CSV comment lines)',
         'CPU code path only (torch is not installed)',
+        'the query-marker lookup is compared as a mapping (parent -> ordered gene list); the order of its keys is compared '
+        'separately under its own class ' + KEY_ORDER_CLASS + ' (known finding: it follows the completion order of the workers)',
         'B: the merge order of the statistics buffers is observed through a harness-side proxy of the module-level '
         'name h5py of precompute_from_anndata (reads of precomputation_buffer_* files in the parent process)',
         'H: a hash-seed dependence can only be seen if the string hashes of the two interpreters order the names '
@@ -879,6 +938,7 @@ def run(ctx):
         generic_schedules(ctx, rng, 'selection', f'{rd}', mk_sel,
                           lambda d, res: {kk2: vv for kk2, vv in res['value'].items() if kk2 not in ('log', 'metadata')},
                           4 if q else 12, what='query marker selection')
+        selection_key_order(ctx, rng, f'{rd}', mk_sel, what={'tree': gt.data, 'n_rows': n_rows, 'genes': genes})
         shutil.rmtree(fb, ignore_errors=True)
     # B: bitwise statistics on data with inexact float sums
     stats_bitwise(ctx, rng, 'a', 3, 'log2CPM', reps=3, limit=lim3)
@@ -896,8 +956,8 @@ def run(ctx):
     # H on scenarios designed to be sensitive to the order in which parents draw from the chunk generator
     designed_hash_seed_runs(ctx, rng, 'da', [[2], [2, 2], [2, 2, 2, 2]], [0, 1, 2, 3] if q else [0, 1, 2, 3, 4, 5, 6, 7])
     designed_hash_seed_runs(ctx, rng, 'db', [[3], [2, 2, 3]], [0, 1, 2, 3] if q else [0, 1, 2, 3, 4, 5, 6, 7])
+    designed_hash_seed_runs(ctx, rng, 'dc', [[2, 2], [2, 3, 2, 2]], [0, 5, 17, 99] if q else [0, 5, 17, 99, 12345, 2 ** 31])
     if not q:
-        designed_hash_seed_runs(ctx, rng, 'dc', [[2, 2], [2, 3, 2, 2]], [0, 5, 17, 99, 12345, 2 ** 31])
         designed_hash_seed_runs(ctx, rng, 'dd', [[2], [3, 2], [2, 2, 2, 1, 2]], [1, 2, 3, 4, 77, 4242])
         designed_hash_seed_runs(ctx, rng, 'de', [[3, 2], [2, 2, 2, 3, 2]], [0, 1, 2, 3, 4, 5])
         designed_hash_seed_runs(ctx, rng, 'df', [[2], [2, 2], [2, 2, 2, 2]], [8, 9, 10, 11, 12, 13])
